@@ -83,6 +83,7 @@ class Writer(object):
         self.annotate = False                # wrap some terms in (! t :named n ...)
         self.annotations = []                # (term blueprint, [(attribute, expected value | None | Ellipsis = not judged)])
         self.nann = 0
+        self.qualify = False                 # write some names as (as name Sort)
 
     def pct(self, p):
         return self.var and self.rnd.randrange(100) < p
@@ -192,13 +193,26 @@ class Writer(object):
             self.annotations.append((t, [(a, v) for (a, _, v) in attrs]))
         return s
 
+    def qualified(self, text, t):
+        """name  ->  (as name Sort) now and then: a qualified identifier denotes what the name denotes."""
+        if self.qualify and self.pct(6):
+            try:
+                ty = self.ty(t)
+            except Exception:
+                return text
+            if is_fun(ty):
+                return text
+            self.tags.add("qualified-identifier")
+            return "(as %s %s)" % (text, sort_text(ty))
+        return text
+
     def _term(self, t):
         if self.subst and id(t) in self.subst:
-            return self.subst[id(t)]
+            return self.qualified(self.subst[id(t)], t)
         op, params, ch = t
         T = self.term
         if op == "SYMBOL":
-            return self.name(params[0])
+            return self.qualified(self.name(params[0]), t)
         if op == "CONST":
             return self.const(*params)
         if op == "FUNCTION":
